@@ -483,9 +483,10 @@ def run_check(mod, tier, seed, replay=None):
         cov.update(mod.coverage_extra(cases, tier) or {})
     ev = {'property_id': pid, 'tier': tier, 'seed': seed, 'level': level, 'coverage': cov,
           'assumptions': list(getattr(mod, 'ASSUMPTIONS', [])), 'wall_s': round(time.time() - t0, 2), 'violations': len(violations)}
-    os.makedirs(os.path.join(ROOT, 'evidence'), exist_ok=True)
-    with open(os.path.join(ROOT, 'evidence', pid + '.json'), 'w') as f:
-        json.dump(ev, f, indent=1, sort_keys=True)
+    if not replay:
+        os.makedirs(os.path.join(ROOT, 'evidence'), exist_ok=True)
+        with open(os.path.join(ROOT, 'evidence', pid + '.json'), 'w') as f:
+            json.dump(ev, f, indent=1, sort_keys=True)
     print('%s tier=%s seed=%d cases=%d impl~model=%d impl~oracle=%d theorems=%d/%d known=%s violations=%d wall=%.1fs' % (
         pid, tier, seed, len(cases), n_cmp_model, n_cmp_oracle, discharged, obligations, {k: len(v) for k, v in known_hit.items()}, len(violations), time.time() - t0))
     return rc
